@@ -137,6 +137,13 @@ func continuationSendRule(r *Report, send *ssa.Function, opener string) {
 	r.Decide("flow", name+": the opening frame carries chunk 0 and END_HEADERS exactly when it is the only chunk", okEH && okFrag && okPad, "BlockFragment chunks[0], EndHeaders true for one chunk and false for 2, 3, 4, no padding", "the opening frame of a header block has the wrong END_HEADERS flag or fragment: a block that needs CONTINUATION frames is declared complete (the peer decodes half a block), or a complete one is left open", ops[0].Pos())
 	// continuation loop
 	cc := conts[0]
+	if okOrder, okFlag := contLoopBySimulation(cc); okOrder {
+		// (decided by running the loop for 1 to 4 chunks: the index expression need not be the loop
+		// variable itself, e.g. a loop that counts the frames written and sends chunks[i+1])
+		r.Decide("flow", name+": CONTINUATION frames carry chunks 1..n-1 in order", true, "run for 1, 2, 3 and 4 chunks: the fragments are chunks[1], ..., chunks[n-1], one per round", "", cc.Pos())
+		r.Decide("flow", name+": END_HEADERS is set on the last CONTINUATION frame only", okFlag, "the flag is true exactly for the last chunk (run for 2, 3 and 4 chunks)", "the END_HEADERS flag of the CONTINUATION frames is wrong: the peer closes the block early and decodes the rest as a new frame, or waits for a CONTINUATION that never comes", cc.Pos())
+		return
+	}
 	var idx *ssa.Phi
 	if ld, isLd := cc.Call.Args[3].(*ssa.UnOp); isLd {
 		if ia, isIA := ld.X.(*ssa.IndexAddr); isIA && isChunks(ia.X) {
@@ -232,7 +239,7 @@ func sendErrorRule(r *Report, send *ssa.Function) {
 						// the (nil) outcome of an earlier write held in an outer variable
 						mine := false
 						for _, e := range errOf(cc) {
-							if l == e || anyIn(r.W.backSlice(l, flowOpt{Through: map[string]bool{"fmt.Errorf": true}, CallArg: true}), func(x ssa.Value) bool { return x == e }) {
+							if l == e || anyIn(r.W.backSlice(l, errWrapFlow), func(x ssa.Value) bool { return x == e }) {
 								mine = true
 							}
 						}
@@ -271,4 +278,69 @@ func sendErrorRule(r *Report, send *ssa.Function) {
 		return
 	}
 	r.Decide("path", name+": a failed write, and only a failed write, ends the method with an error", okErr, "each write's error edge returns a non-nil error; every error return lies behind such an edge", "the test of a framer write's error is inverted or missing: a frame that was written ends the relay with an error, or a failed write is taken for success and the relay goes on writing to a broken connection", send.Pos())
+}
+
+// contLoopBySimulation runs the loop around the WriteContinuation call cc for 1
+// to 4 chunks and reports whether the fragments written are chunks[1] ...
+// chunks[n-1] in this order, one per round (okOrder), and whether END_HEADERS
+// is set on the last of them only (okFlag).
+func contLoopBySimulation(cc *ssa.Call) (okOrder, okFlag bool) {
+	isChunks := func(v ssa.Value) bool {
+		ld, ok := v.(*ssa.UnOp)
+		if !ok || ld.Op != token.MUL {
+			return false
+		}
+		fa, ok := ld.X.(*ssa.FieldAddr)
+		return ok && fieldObj(fa).Name() == "chunks"
+	}
+	if len(cc.Call.Args) < 4 {
+		return false, false
+	}
+	ld, isLd := cc.Call.Args[3].(*ssa.UnOp)
+	if !isLd {
+		return false, false
+	}
+	ia, isIA := ld.X.(*ssa.IndexAddr)
+	if !isIA || !isChunks(ia.X) {
+		return false, false
+	}
+	okOrder, okFlag = true, true
+	for n := int64(1); n <= 4; n++ {
+		leaf := func(v ssa.Value) (int64, bool) {
+			if c, ok := v.(*ssa.Call); ok {
+				if b, isB := c.Call.Value.(*ssa.Builtin); isB && b.Name() == "len" && isChunks(c.Call.Args[0]) {
+					return n, true
+				}
+			}
+			return 0, false
+		}
+		var idxs []int64
+		var flags []bool
+		flagsOK := true
+		done := simulateLoop(cc.Block(), leaf, 8, func(ev *miniEval) bool {
+			i, ok := ev.Int(ia.Index)
+			if !ok {
+				return false
+			}
+			idxs = append(idxs, i)
+			fl, okF := ev.Bool(cc.Call.Args[2])
+			if !okF {
+				flagsOK = false
+			}
+			flags = append(flags, fl)
+			return true
+		})
+		if !done || int64(len(idxs)) != n-1 {
+			return false, false
+		}
+		for k, i := range idxs {
+			if i != int64(k)+1 {
+				return false, false
+			}
+			if !flagsOK || flags[k] != (i == n-1) {
+				okFlag = false
+			}
+		}
+	}
+	return okOrder, okFlag
 }
